@@ -4,6 +4,7 @@ import (
 	"fmt"
 	"runtime"
 	"strings"
+	"sync"
 
 	"verifharness/gen"
 	"verifharness/probe"
@@ -233,6 +234,7 @@ func CheckC17(c *Ctx) {
 	// and if the excess persists every call of the block is bracketed individually to name the configuration.
 	c17Walk(c)
 	c17ScoreWalk(c)
+	c17Concurrent(c)
 	for _, x := range []float64{0, 0.05, 0.1, 3.9, 4.0, 5.4, 7.0, 8.9, 9.0, 10.0, -0.1, 10.1, 1e300, -1e300} {
 		for _, op := range probe.RatingOps(x) {
 			op.Arg = fstr(x)
@@ -245,7 +247,7 @@ func CheckC17(c *Ctx) {
 	c.Extra["toolchain"] = runtime.Version()
 	c.Extra["calls_per_measurement"] = n
 	c.SetReport(Report{
-		Rule:        "steady-state heap allocations per call measured with runtime.MemStats.Mallocs around " + fmt.Sprint(n) + " calls after " + fmt.Sprint(warm) + " warm-up calls, GOMAXPROCS(1), GC off, concrete methods called directly, results kept alive in package-level sinks; minimum over up to 4 repetitions (stray runtime allocations only add). Budget: successful ParseVector <= 1, Vector() == 1, Get/Set on a known metric (legal and illegal values), every scoring method, Rating, Nomenclature == 0. Also measured with MemStats read between a PRECEDING call (each of ~40 valid/invalid vectors per version, every error kind) and the measured call, so that an allocation pushed onto the next call by an earlier one (pool buffer not returned on an error path) is seen. EXHAUSTIVE WALK for Vector(): every configuration of the optional metrics of v2.0 (192,000), and in thorough of v3.0/v3.1 (221,184,000 each) and of v4.0's threat+environmental metrics (1,179,648,000; supplemental seeded per chunk) -- quick: 1 chunk in 25 / 64 -- visited in Gray-code order on a concrete object, each serialisation is followed by ParseVector of the string just produced; allocations counted per block of 32,768 steps (must equal two per step: the string and the returned object; excess re-walked, then bracketed per call: Vector() exactly 1, ParseVector at most 1). EXHAUSTIVE SCORE WALK for the methods that must not allocate: one object per chunk driven by single legal Set calls through v2.0's 139,968,000 assignments (quick: 3 of 27 chunks), v3.x's 16,588,800 effective classes through base metrics (quick: 2 of 8 chunks) plus all defined Modified assignments over a decoy base x 216 temporal/requirement settings, v4.0's base x defined E/CR/IR/AR x MSI/MSA in {X,S} (34,012,224; quick 1 chunk in 4) and all 15,116,544 classes through Modified metrics over a decoy base (quick 1 in 4): after every step every scoring method (v4: Score, Nomenclature) is called, allocations per block of 32,768 steps must be 0 (excess re-walked, then bracketed per step and method). Inputs: no optional metric, all, every optional metric alone x every value (incl. all U spellings) x 2 base backgrounds, canonical and with every X/ND written explicitly, all-but-one, seeded random subsets/spellings (v3 shuffled). evaluations = measured calls; distinct = distinct input vectors",
+		Rule:        "steady-state heap allocations per call measured with runtime.MemStats.Mallocs around " + fmt.Sprint(n) + " calls after " + fmt.Sprint(warm) + " warm-up calls, GOMAXPROCS(1), GC off, concrete methods called directly, results kept alive in package-level sinks; minimum over up to 4 repetitions (stray runtime allocations only add). Budget: successful ParseVector <= 1, Vector() == 1, Get/Set on a known metric (legal and illegal values), every scoring method, Rating, Nomenclature == 0. Also measured with MemStats read between a PRECEDING call (each of ~40 valid/invalid vectors per version, every error kind) and the measured call, so that an allocation pushed onto the next call by an earlier one (pool buffer not returned on an error path) is seen. EXHAUSTIVE WALK for Vector(): every configuration of the optional metrics of v2.0 (192,000), and in thorough of v3.0/v3.1 (221,184,000 each) and of v4.0's threat+environmental metrics (1,179,648,000; supplemental seeded per chunk) -- quick: 1 chunk in 25 / 64 -- visited in Gray-code order on a concrete object, each serialisation is followed by ParseVector of the string just produced; allocations counted per block of 32,768 steps (must equal two per step: the string and the returned object; excess re-walked, then bracketed per call: Vector() exactly 1, ParseVector at most 1). CONCURRENT steady state: 16 goroutines on 16 Ps making 20,000 (thorough 200,000) overlapping calls each of ParseVector / Vector / all scoring methods per version on private objects; process-wide allocations per call within 0.02 of the budget. EXHAUSTIVE SCORE WALK for the methods that must not allocate: one object per chunk driven by single legal Set calls through v2.0's 139,968,000 assignments (quick: 3 of 27 chunks), v3.x's 16,588,800 effective classes through base metrics (quick: 2 of 8 chunks) plus all defined Modified assignments over a decoy base x 216 temporal/requirement settings, v4.0's base x defined E/CR/IR/AR x MSI/MSA in {X,S} (34,012,224; quick 1 chunk in 4) and all 15,116,544 classes through Modified metrics over a decoy base (quick 1 in 4): after every step every scoring method (v4: Score, Nomenclature) is called, allocations per block of 32,768 steps must be 0 (excess re-walked, then bracketed per step and method). Inputs: no optional metric, all, every optional metric alone x every value (incl. all U spellings) x 2 base backgrounds, canonical and with every X/ND written explicitly, all-but-one, seeded random subsets/spellings (v3 shuffled). evaluations = measured calls; distinct = distinct input vectors",
 		Assumptions: []string{"a property of the compiled program: decided for the toolchain in this image (" + runtime.Version() + "), plain build (no -race: the race runtime makes sync.Pool drop Puts)"},
 	})
 	c.Finish()
@@ -481,6 +483,74 @@ func c17ScoreWalk(c *Ctx) {
 		c.Extra["score_walk_blocks_with_confirmed_excess_"+g.name] = excessBlocks
 		c.Extra["score_walk_blocks_rewalked_"+g.name] = noisyBlocks
 		c.Floor("score walk steps "+g.name, steps, 100000)
+	}
+}
+
+// c17Concurrent: the same budgets with the calls OVERLAPPING in time. A scratch buffer kept in a one-slot cache
+// instead of a per-P pool costs nothing extra for a single caller and an extra allocation whenever two calls overlap.
+// G = 16 goroutines on 16 Ps, each with its own inputs-by-value and sink, warm up, meet at a barrier, then make N calls
+// of ONE kind each; heap allocations of the whole process over the measured phase divided by G*N must stay within
+// 0.02 of the budget (minimum over up to 3 repetitions: stray allocations only add).
+func c17Concurrent(c *Ctx) {
+	const G = 16
+	N := c.Pick(20000, 200000)
+	prev := runtime.GOMAXPROCS(G)
+	defer runtime.GOMAXPROCS(prev)
+	for vi, v := range spec.Versions {
+		r := c.Rand("concurrent", v.Name)
+		vecs := []string{v.Canonical(v.ZeroAssign()), v.Canonical(gen.Background(r, v, 1)), v.Canonical(gen.MixedAssign(r, v))}
+		for _, kind := range []string{"ParseVector", "Vector", "scores"} {
+			budget := map[string]float64{"ParseVector": 1, "Vector": 1, "scores": 0}[kind]
+			best := -1.0
+			for try := 0; try < 3; try++ {
+				sinks := make([]probe.ConcSink, G)
+				fs := make([]func(), G)
+				for g := 0; g < G; g++ {
+					p, ve, sc, err := probe.ConcOps(vi, vecs[g%len(vecs)], &sinks[g])
+					if err != nil {
+						c.Violate(Violation{Kind: "cannot-build-object", Version: v.Name, Steps: parseSteps(vecs[g%len(vecs)]), Expected: "accepted", Observed: err.Error()})
+						return
+					}
+					fs[g] = map[string]func(){"ParseVector": p, "Vector": ve, "scores": sc}[kind]
+				}
+				var ready, done sync.WaitGroup
+				start := make(chan struct{})
+				ready.Add(G)
+				done.Add(G)
+				for g := 0; g < G; g++ {
+					go func(f func()) {
+						for i := 0; i < 2000; i++ {
+							f()
+						}
+						ready.Done()
+						<-start
+						for i := 0; i < N; i++ {
+							f()
+						}
+						done.Done()
+					}(fs[g])
+				}
+				ready.Wait()
+				before := probe.Mallocs()
+				close(start)
+				done.Wait()
+				mean := float64(probe.Mallocs()-before) / float64(G*N)
+				runtime.KeepAlive(sinks)
+				if best < 0 || mean < best {
+					best = mean
+				}
+				c.Evals += int64(G * N)
+				if best <= budget+0.02 {
+					break
+				}
+			}
+			c.Counts["concurrent-phases"]++
+			c.Extra[fmt.Sprintf("concurrent_allocs_per_call_v%s_%s", v.Name, kind)] = fmt.Sprintf("%.4f", best)
+			if best > budget+0.02 || (kind == "Vector" && best < budget-0.02) {
+				c.Violate(Violation{Kind: "allocation-budget-exceeded", Version: v.Name, Steps: parseSteps(vecs[0]), Expected: fmt.Sprintf("%s: %.0f heap allocation(s) per call also when %d goroutines call it at the same time", kind, budget, G),
+					Observed: fmt.Sprintf("%.4f per call (process-wide Mallocs over %d x %d overlapping calls, minimum of up to 3 runs)", best, G, N), Detail: map[string]any{"workload": "concurrent-steady-state", "op": kind, "note": "needs overlapping calls: the replay measures the call alone"}})
+			}
+		}
 	}
 }
 
